@@ -229,3 +229,19 @@ also("C14", "Also: to_datetime uses the default offset 0 only where the offset f
 also("C15", "Also: a justification covers only as many source lines as it was reviewed for; an additional undischarged site with the same description is reported.")
 also("C16", "Also: both LocalTimeType constructors exclude ut_offset == i32::MIN on every Ok path; in the version 2/3 arm of parse() the footer is always present when the new-line tests run.")
 also("C17", "Also: every Ok path of the three rounding helpers has taken timestamp_nanos_opt() (one epoch basis for all spans).")
+
+# ---- additions after the fifth round of seeded changes -------------------------------------------------------------------------
+also("C01", "Also: the provided Datelike::num_days_in_month passes month() and the proleptic year() of self to Month::num_days.")
+also("C03", "Also: the length hint of the date iterators is exact: lower = upper = the distance to NaiveDate::MAX in the iterator's unit, without a constant adjustment.")
+also("C04", "Also: earliest() / latest() / single() of a unique result return its only component (shared with C05).")
+also("C05", "Also: in both AlternateTime lookups no integer value combines the rule day of one transition with the time of day of the other (tag propagation).")
+also("C07", "Also: the provided Timelike::hour12 as a complete finite map over hour 0..=23.", "finite maps")
+also("C09", "Also: NaiveDate's Debug uses the plain four-digit year form exactly for 0..=9999.")
+also("C11", "Also: both time-colon probes of the reader skip white space before the colon.")
+also("C13", "Also: the year / century / two-digit-year combination rule and the Div/Rem pairing of the consistency checks (shared with C14).")
+also("C14", "Also: resolve_year as a finite map over boundary values of each argument and all two-digit years against the documented rule (1970..=2069 pivot, full year wins if consistent, century alone is "
+            "not enough); the offset check holds when no offset was supplied; a *_div_100 field is compared with year / 100 and a *_mod_100 field with year % 100, never crosswise.", "finite maps")
+also("C16", "Also: every Ok path of Header::new established type_count != 0, char_count != 0 and each indicator count in {0, type_count} for that very count; every Ok path of from_tz_string found the "
+            "cursor empty after the last cursor-advancing call.")
+also("C17", "Also: TimestampExceedsLimit is reported only as the ok_or of timestamp_nanos_opt().")
+also("C18", "Also: a TZ value is read as a POSIX rule only after the zone-file lookup was tried for it, on every path.")
